@@ -7,6 +7,7 @@ import (
 	"strings"
 	"time"
 
+	"github.com/pascaldekloe/mqtt"
 
 	"verif/run"
 	"verif/sim"
@@ -15,13 +16,15 @@ import (
 
 // An incident is one placement of a failure relative to the read routine.
 var incidentKinds = []string{
-	"writer-fails-while-reader-owes-ack",       // reader parked before its flush
-	"writer-fails-while-reader-in-read",        // reader blocked in Read
-	"writer-fails-while-reader-owes-pubrel",    // reader parked between PUBREL save and write
-	"writer-fails-after-reader-flushed",        // plain order
-	"reader-fails-while-writer-blocked",        // read error with a writer stuck inside Write
+	"writer-fails-while-reader-owes-ack",    // reader parked before its flush
+	"writer-fails-while-reader-in-read",     // reader blocked in Read
+	"writer-fails-while-reader-owes-pubrel", // reader parked between PUBREL save and write
+	"writer-fails-after-reader-flushed",     // plain order
+	"reader-fails-while-writer-blocked",     // read error with a writer stuck inside Write
 	"read-eof", "read-reset", "read-expiry-mid-packet", "protocol-violation",
 	"ack-write-fails", "dial-fails-n-times", "handshake-fails", "resend-fails", "refused",
+	"expiry-while-skipping-big-duplicate", // the broker stalls inside the payload of a retransmission that gets skipped
+	"expiry-while-skipping-unread-big",    // the same inside a big message the application did not read
 }
 
 const c10Min, c10Max = 2 * time.Millisecond, 16 * time.Millisecond
@@ -34,7 +37,7 @@ func runIncidents(c *run.Ctx, kinds []string) {
 	ep.Cfg.ReconnectWaitMin, ep.Cfg.ReconnectWaitMax = c10Min, c10Max
 	ep.Cfg.AtLeastOnceMax, ep.Cfg.ExactlyOnceMax = 32, 32
 	// scripted decisions, set per incident
-	var failWriter, gateWriter, failAck bool
+	var failWriter, gateWriter, failAck, skipBig bool
 	var failDials, failHandshake, failResend, refuse int
 	parkAt := ""
 	w.Mu.Lock()
@@ -105,6 +108,11 @@ func runIncidents(c *run.Ctx, kinds []string) {
 	w.Mu.Unlock()
 	d := ep.D
 	d.WaitBackoff = true
+	d.BigRead = func(b *mqtt.BigMessage) bool {
+		w.Mu.Lock()
+		defer w.Mu.Unlock()
+		return !skipBig
+	}
 	d.StartReader()
 	detail := func() map[string]any {
 		return map[string]any{"incidents": kinds, "trace_tail": w.TraceTail(traceN(c))}
@@ -232,6 +240,32 @@ func runIncidents(c *run.Ctx, kinds []string) {
 		case "read-expiry-mid-packet":
 			pk := wire.Publish("in/"+tag, []byte("payload"), 0, 0, false, false)
 			conn.Send(pk[:1+c.Rng.Intn(len(pk)-1)], "truncated PUBLISH, then silence")
+		case "expiry-while-skipping-big-duplicate", "expiry-while-skipping-unread-big":
+			// a message beyond the read buffer, complete; the read loop takes it
+			level := byte(2)
+			if kind == "expiry-while-skipping-unread-big" {
+				level = byte(c.Rng.Intn(3))
+			}
+			big := sim.MarkerPayload(n, mqtt.VerifReadBufSize()+1000+c.Rng.Intn(5000))
+			id := uint16(0x0700 + n)
+			set(func() { skipBig = kind == "expiry-while-skipping-unread-big" })
+			reads0 := d.ReadCount()
+			full := wire.Publish("in/big/"+tag, big, level, id, false, false)
+			if kind == "expiry-while-skipping-big-duplicate" {
+				conn.Send(full, "big PUBLISH")
+				// returned, and the next invocation saved the marker and wrote PUBREC
+				if !w.WaitUntil(sim.StepTimeout, func() bool { return d.ReadCount() > reads0 && w.ReaderQuietLocked() }) {
+					wedge("big message was not received")
+					return
+				}
+				// the retransmission stalls inside its payload; what would follow looks like packets
+				dup := wire.Publish("in/big/"+tag, big, level, id, true, false)
+				cutAt := len(dup) - 1000 - c.Rng.Intn(900)
+				conn.Send(dup[:cutAt], "big PUBLISH again, then silence inside the payload")
+			} else {
+				cutAt := len(full) - 1000 - c.Rng.Intn(900)
+				conn.Send(full[:cutAt], "big PUBLISH, silence inside the payload")
+			}
 		case "protocol-violation":
 			conn.Send(directed[c.Rng.Intn(8)].b, "protocol violation")
 		case "ack-write-fails":
@@ -310,6 +344,9 @@ func runIncidents(c *run.Ctx, kinds []string) {
 	for _, o := range w.Online {
 		c.Violate("deadline-discipline", o, detail())
 	}
+	for _, o := range d.LeftOpenSnapshot() {
+		c.Violate("failed-connection-left-in-use", o, detail())
+	}
 	if !d.CloseAndWait() {
 		c.Spoiled()
 	}
@@ -381,8 +418,8 @@ func init() {
 			}
 			return 700
 		},
-		ChunkSize: 25,
-		Rule:      "each case strings 1-5 incidents on one client with an always-calling read loop that waits on ReadBackoff (ReconnectWaitMin 2 ms, Max 16 ms). Incident kinds place a failure relative to the read routine with hook parking and connection gates: another goroutine's request write (Publish, Subscribe, Ping) fails while the read routine is parked right before its acknowledgement flush, parked between saving and writing a PUBREL, blocked in Read, or after it flushed; the read routine meets a protocol violation while a writer is stuck inside Write holding the connection; EOF, reset, expiry inside a packet, a protocol violation; the acknowledgement's own write fails; 1-5 consecutive dial failures; 1-3 handshakes cut; refusals; resend failures with transfers pending. Oracle after each incident: the failed connection gets closed, the Dialer is invoked again, every request pending on that connection returns, Online is released and a Ping succeeds; 'does not happen' is decided structurally (no event and identical goroutine stacks for the stability window) with the dump as witness. ReadBackoff: non-nil for every error but ErrClosed, idle duration (seen through verifNote) inside [Min, Max], equal to Max after refusals and to the documented doubling otherwise, channel never closed earlier than that duration. Non-trivial: every incident; distinct by incident kind sequence.",
+		ChunkSize:   25,
+		Rule:        "each case strings 1-5 incidents on one client with an always-calling read loop that waits on ReadBackoff (ReconnectWaitMin 2 ms, Max 16 ms). Incident kinds place a failure relative to the read routine with hook parking and connection gates: another goroutine's request write (Publish, Subscribe, Ping) fails while the read routine is parked right before its acknowledgement flush, parked between saving and writing a PUBREL, blocked in Read, or after it flushed; the read routine meets a protocol violation while a writer is stuck inside Write holding the connection; EOF, reset, expiry inside a packet, a protocol violation; the broker falls silent inside the payload of a message beyond the read buffer that is being skipped (a retransmitted exactly-once duplicate, or one the application chose not to read); the acknowledgement's own write fails; 1-5 consecutive dial failures; 1-3 handshakes cut; refusals; resend failures with transfers pending. Oracle after each incident: the failed connection gets closed, the Dialer is invoked again, every request pending on that connection returns, Online is released and a Ping succeeds; 'does not happen' is decided structurally (no event and identical goroutine stacks for the stability window) with the dump as witness. ReadBackoff: non-nil for every error but ErrClosed, idle duration (seen through verifNote) inside [Min, Max], equal to Max after refusals and to the documented doubling otherwise, channel never closed earlier than that duration. Non-trivial: every incident; distinct by incident kind sequence.",
 		Assumptions: []string{"the stability window is 1.5 s (75 periods of the client's only periodic timer) after an 8 s watchdog; a watchdog expiry with events still flowing is inconclusive", "real time is used to hold nothing; the early-close check of ReadBackoff is the one sound direction of a wall-clock comparison"},
 		Run: func(c *run.Ctx) {
 			n := 1 + c.Rng.Intn(5)
